@@ -262,9 +262,9 @@ func c07Configs(tier string) (single []wParams, hist []wParams) {
 	}
 	for _, dir := range []string{"up", "down"} {
 		for _, pr := range protos {
-			for _, tree := range []string{"one:T:300", "dir", "samebase", "dir2"} {
+			for _, tree := range []string{"one:T:300", "dir", "samebase", "dir2", "emptytop"} {
 				for _, dm := range []bool{false, true} {
-					if strings.HasPrefix(tree, "dir") && !dm {
+					if (strings.HasPrefix(tree, "dir") || tree == "emptytop") && !dm {
 						continue
 					}
 					for _, pre := range pres {
@@ -290,7 +290,7 @@ func init() {
 	vs.Register(&vs.Check{
 		ID:    "C07",
 		Level: "exploration",
-		Rule: "prior destination state (4^3 kinds at name/name.0/name.1, full and gapped name.N series, long names) x incoming set (file, directory, two paths with one base name, directory plus file) " +
+		Rule: "prior destination state (4^3 kinds at name/name.0/name.1, full and gapped name.N series, long names) x incoming set (file, directory, two paths with one base name, directory plus file, empty top-level directory plus file) " +
 			"x protocol x directory mode x receiving role, and the same sources transferred three times in a row; each a full transfer through the real code; distinct by construction; " +
 			"16 histories through one or two relays (a transfer with -y, then one without, into the same destination); 24 collision configurations additionally interrupted by stop-and-delete before every 5th scheduler step (pre-existing entries must survive)",
 		Assumptions: []string{"same trusted base as C01 (server main replica, default schedule)", "snapshots compare type, size, SHA-256, permission bits and file mtime of every pre-existing entry"},
